@@ -114,6 +114,14 @@ impl Re {
         }
     }
 
+    /// A whole pattern: the empty regex is the empty string.
+    pub fn print_top(&self, syms: &[char]) -> String {
+        match self {
+            Re::Eps => String::new(),
+            _ => self.print(syms),
+        }
+    }
+
     fn print_in_cat(&self, syms: &[char]) -> String {
         match self {
             Re::Alt(_) => format!("({})", self.print(syms)),
